@@ -727,7 +727,10 @@ int reb_check_exit(struct reb_simulation* const r, const double tmax, double* la
     }
 #ifndef MPI
     if (!r->N){
-        if (!r->N_odes){
+        // Only user-defined ODEs can keep an integration without particles going. The BS integrator registers
+        // the N-body equations themselves as an ODE. That one does not count.
+        const int N_user_odes = r->N_odes - (r->ri_bs.nbody_ode!=NULL ? 1 : 0);
+        if (N_user_odes<=0){
             reb_simulation_warning(r,"No particles found. Will exit.");
             r->status = REB_STATUS_NO_PARTICLES; // Exit now.
         }else{
